@@ -133,6 +133,7 @@ class JSReplayer:
         saved_mode = ex.mode
         try:
             ex.mode = self.c.get('mode')[0].text.strip() if self.c.get('mode') else 'jn'
+            ex.interpret_prod = True      # on concrete values products are real products
             pre = State(); pre.meta['concrete'] = True
             for pnode, a in zip(self.fn['params'], args):
                 pre.env[pnode['name']] = self.lift_in(a)
@@ -168,5 +169,6 @@ class JSReplayer:
             res['note'] = 'contract could not be evaluated concretely: %r' % (e,)
         finally:
             ex.mode = saved_mode
+            ex.interpret_prod = False
         res['violates'] = bool(res['violated_clauses'])
         return res
